@@ -51,16 +51,16 @@ Definition judge_strip (c : str * nat * list str) : nat :=
   verdict (negb (strs_eqb (strip_paren line d) impl)) false 0.
 
 (* ---- the regular expressions on one string:
-   (text, CALL_RE.finditer texts, SUBCALL_RE.search group, masks: FORMAT/GOTO/END ASSOCIATE,
-    ASSOCIATE_RE group, QUOTES_RE-masked text) ---- *)
-Definition judge_re (c : str * list str * option str * (bool * bool * bool) * option str * str) : nat :=
-  let '(x, calls, sub, (fm, gt, ea), asc, masked) := c in
+   (text, CALL_RE.finditer texts, SUBCALL_RE.search group, FORMAT_RE / END ASSOCIATE,
+    ASSOCIATE_RE group, the text with the ARITH_GOTO_RE match replaced by "goto", QUOTES_RE-masked text) ---- *)
+Definition judge_re (c : str * list str * option str * (bool * bool) * option str * option str * str) : nat :=
+  let '(x, calls, sub, (fm, ea), asc, gt, masked) := c in
   let ok :=
     strs_eqb (call_finditer_naive (S (length x)) x) calls
     && chains_eqb (map norm_chain (call_matches x)) (map norm_chain calls)
     && strs_eqb (map strip_cw (call_matches x)) (map strip_cw calls)
     && opt_eqb str_eqb (subcall_match x) sub
-    && Bool.eqb (format_re x) fm && Bool.eqb (arith_goto_re x) gt && Bool.eqb (end_associate_re x) ea
+    && Bool.eqb (format_re x) fm && opt_eqb str_eqb (goto_rewrite false [] x) gt && Bool.eqb (end_associate_re x) ea
     && opt_eqb str_eqb (associate_re x) asc
     && str_eqb (mask_quotes x) masked in
   verdict (negb ok) false 0.
